@@ -423,7 +423,7 @@ impl Workload for DamageWorkload {
     }
     fn assumptions(&self) -> Vec<String> {
         vec![
-            "content = k, strand mode, sample names, split k-mers and bases in stored order; the stored counts, version string and width field are not content".into(),
+            "content = k, strand mode, sample names, split k-mers and bases in stored order, plus - for an image a loader accepts - the bytes the loaded array is saved as again, compared with what the same loader makes of the undamaged file (so that stored state no accessor shows, such as the per-row counts, is covered)".into(),
             "a loader panic counts as rejection (a subcommand would end with a non-zero status)".into(),
             "crash model: the kernel short-writes at byte n of the output file (RLIMIT_FSIZE) and either kills the writer (SIGXFSZ) or fails the write with an error (disk full); metadata and directory operations are not torn".into(),
         ]
@@ -486,9 +486,16 @@ impl Workload for DamageWorkload {
         let check_image = |data: &[u8], what: &str| -> Result<bool, (String, String)> {
             std::fs::write(&img, data).expect("write image");
             let mut accepted = false;
-            for (w, r) in [(64, load_as::<u64>(&imgp)), (128, load_as::<u128>(&imgp))] {
+            for (w, r, own) in [(64, load_as::<u64>(&imgp), c64.as_ref().ok()), (128, load_as::<u128>(&imgp), c128.as_ref().ok())] {
                 if let Ok(got) = r {
-                    if got != content {
+                    // the expectation is what THIS loader made of the undamaged file (the re-saved bytes
+                    // of another width are not comparable); a loader that rejects the undamaged file
+                    // is held to k, strand, names, k-mers and bases only
+                    let same = match own {
+                        Some(o) => got == *o,
+                        None => (&got.0, &got.1, &got.2, &got.3) == (&content.0, &content.1, &content.2, &content.3),
+                    };
+                    if !same {
                         let hidden = (&got.0, &got.1, &got.2, &got.3) == (&content.0, &content.1, &content.2, &content.3);
                         return Err((
                             format!("load:{w}-bit-loader-accepts-damaged-file-as-different-data"),
@@ -688,7 +695,9 @@ impl Workload for DamageWorkload {
                 // what the complete new file and the file that was there before decode to
                 let wpath = dir.p("complete_copy.skf");
                 std::fs::write(&wpath, &full).expect("write copy");
-                let new_content: Option<Content> = load_as::<u64>(wpath.to_str().unwrap()).ok().or_else(|| load_as::<u128>(wpath.to_str().unwrap()).ok());
+                let new64 = load_as::<u64>(wpath.to_str().unwrap()).ok();
+                let new128 = load_as::<u128>(wpath.to_str().unwrap()).ok();
+                let new_content: Option<Content> = new64.clone().or_else(|| new128.clone());
                 let _ = std::fs::remove_file(&wpath);
                 let old_bytes: Option<Vec<u8>> = if target == "work.skf" { Some(orig.clone()) } else { None };
                 if op == "mask" && new_content.as_ref().map(|c| c.3 != content.3) == Some(true) {
@@ -773,9 +782,10 @@ impl Workload for DamageWorkload {
                     let l64 = load_as::<u64>(tp);
                     let l128 = load_as::<u128>(tp);
                     let mut harmless = false;
-                    for got in [l64, l128].into_iter().flatten() {
-                        let as_new = new_content.as_ref() == Some(&got);
-                        let as_old = !is_prefix && old_bytes.is_some() && got == content;
+                    for (got, new_w, old_w) in [(l64, &new64, c64.as_ref().ok()), (l128, &new128, c128.as_ref().ok())].into_iter().filter_map(|(g, n, o)| g.ok().map(|g| (g, n, o))) {
+                        // compared with what the SAME loader makes of the complete new / the old file
+                        let as_new = new_w.as_ref() == Some(&got);
+                        let as_old = !is_prefix && old_bytes.is_some() && old_w == Some(&got);
                         if as_new || as_old {
                             harmless = true;
                             probe(if as_new { "c19_crash_leftover_reads_as_the_new_file" } else { "c19_crash_leftover_reads_as_the_old_file" });
